@@ -17,7 +17,7 @@ use c2pa::{
 use serde::{Deserialize, Serialize};
 use serde_json::json;
 use vh::{
-    pki::{self, ku, oids, CertSpec, ChainSpec, KeyKind, PkiSigner, SigDigest},
+    pki::{self, der, ku, oids, CertSpec, ChainSpec, KeyKind, PkiSigner, RawExt, SigDigest},
     rng::SplitMix64,
     sdk, CaseResult, Fail, Run,
 };
@@ -67,6 +67,17 @@ const RULES: &[(&str, Expect, bool)] = &[
     ("eku_mixed_ts_email", Expect::Reject, true),
     ("eku_mixed_ocsp_ts", Expect::Reject, true),
     ("crit_unknown", Expect::Reject, true),
+    // critical extensions under OIDs x509-parser knows but the C2PA profile does not handle
+    ("crit_issuer_alt_name", Expect::Reject, true),
+    ("crit_subject_info_access", Expect::Reject, true),
+    ("crit_ns_comment", Expect::Reject, true),
+    ("crit_issuing_dist_point", Expect::Reject, true),
+    ("crit_sct_list", Expect::Reject, true),
+    // critical extensions whose content does not parse (known OID, malformed DER)
+    ("crit_malformed_issuer_alt_name", Expect::Reject, true),
+    ("crit_malformed_policies", Expect::Reject, true),
+    // Netscape cert type is on the profile code's list of tolerated extensions: recorded, not judged
+    ("crit_ns_cert_type", Expect::Record, true),
     ("not_yet_valid", Expect::Reject, true),
     ("expired", Expect::Reject, true),
     ("aki_missing", Expect::Record, true),
@@ -124,6 +135,11 @@ fn benign(r: &mut SplitMix64, tag: &str) -> CertSpec {
     s
 }
 
+/// Append a critical extension with the given extnValue content.
+fn crit_ext(s: &mut CertSpec, oid: &str, value: Vec<u8>) {
+    s.extra_exts.push(RawExt { oid: oid.to_string(), critical: true, value_hex: hex::encode(value) });
+}
+
 fn apply_rule(rule: &str, s: &mut CertSpec, r: &mut SplitMix64) {
     match rule {
         "conforming" | "self_signed" => {}
@@ -172,6 +188,56 @@ fn apply_rule(rule: &str, s: &mut CertSpec, r: &mut SplitMix64) {
         }
         "eku_mixed_ocsp_ts" => s.eku = Some(vec![oids::EKU_OCSP_SIGNING.to_string(), oids::EKU_TIME_STAMPING.to_string()]),
         "crit_unknown" => s.critical_unknown_ext = true,
+        "crit_issuer_alt_name" => {
+            // GeneralNames { rfc822Name }
+            let mail = format!("issuer{}@example.com", r.below(1000));
+            crit_ext(s, "2.5.29.18", der::seq(&[der::ctx(1, false, mail.as_bytes())]))
+        }
+        "crit_subject_info_access" => {
+            // SubjectInfoAccessSyntax { AccessDescription { id-ad-caRepository | id-ad-timeStamping, URI } }
+            let method = *r.pick(&["1.3.6.1.5.5.7.48.5", "1.3.6.1.5.5.7.48.3"]);
+            let uri = format!("http://repo{}.example.com/", r.below(1000));
+            crit_ext(s, "1.3.6.1.5.5.7.1.11", der::seq(&[der::seq(&[der::oid(method), der::ctx(6, false, uri.as_bytes())])]))
+        }
+        "crit_ns_comment" => crit_ext(s, "2.16.840.1.113730.1.13", der::tlv(0x16, format!("comment {}", r.below(1000)).as_bytes())),
+        "crit_issuing_dist_point" => {
+            // IssuingDistributionPoint { onlyContainsUserCerts [1] TRUE } or { onlyContainsCACerts [2] TRUE }
+            let tag = if r.bool() { 1 } else { 2 };
+            crit_ext(s, "2.5.29.28", der::seq(&[der::ctx(tag, false, &[0xff])]))
+        }
+        "crit_sct_list" => {
+            // SignedCertificateTimestampList (RFC 6962): one v1 SCT with an ECDSA/SHA-256 signature blob
+            let mut sct = vec![0u8];
+            sct.extend(r.bytes(32)); // log id
+            sct.extend(r.bytes(8)); // timestamp
+            sct.extend([0, 0]); // no extensions
+            sct.extend([4, 3]); // sha256, ecdsa
+            let sig = r.bytes(70);
+            sct.extend((sig.len() as u16).to_be_bytes());
+            sct.extend(sig);
+            let mut list = (sct.len() as u16).to_be_bytes().to_vec();
+            list.extend(sct);
+            let mut tls = (list.len() as u16).to_be_bytes().to_vec();
+            tls.extend(list);
+            crit_ext(s, "1.3.6.1.4.1.11129.2.4.2", der::octet(&tls))
+        }
+        "crit_malformed_issuer_alt_name" => {
+            let junk = match r.below(3) {
+                0 => vec![0xff, 0xff],
+                1 => vec![0x30, 0x05, 0x81, 0x01], // truncated SEQUENCE
+                _ => vec![0x04, 0x02, 0x41, 0x42], // wrong type
+            };
+            crit_ext(s, "2.5.29.18", junk)
+        }
+        "crit_malformed_policies" => {
+            let junk = match r.below(3) {
+                0 => vec![0xff, 0xff],
+                1 => vec![0x30, 0x06, 0x30, 0x08, 0x06, 0x02], // truncated PolicyInformation
+                _ => vec![0x02, 0x01, 0x05], // INTEGER instead of SEQUENCE
+            };
+            crit_ext(s, "2.5.29.32", junk)
+        }
+        "crit_ns_cert_type" => crit_ext(s, "2.16.840.1.113730.1.1", der::bit_string(&[0x80], 7)),
         "not_yet_valid" => {
             s.not_before_off = 2 * 86_400 + r.below(30 * 86_400) as i64;
             s.not_after_off = s.not_before_off + 365 * 86_400;
@@ -247,6 +313,17 @@ fn selftest() -> String {
     std::env::var("VERIF_SELFTEST").unwrap_or_default()
 }
 
+/// `VERIF_SELFTEST=miss` (rule ca_true) or `VERIF_SELFTEST=miss:<rule>`: the SDK's answer for that rule is
+/// replaced by "accepted".
+fn selftest_miss(rule: &str) -> bool {
+    let st = selftest();
+    match st.strip_prefix("miss") {
+        Some("") => rule == "ca_true",
+        Some(rest) => rest.strip_prefix(':') == Some(rule),
+        None => false,
+    }
+}
+
 fn judge(run: &Run, src: &[u8], now: i64, c: &Case) -> CaseResult {
     let want = expect_of(&c.rule);
     let lvl = if c.level == 0 { "direct" } else { "e2e" };
@@ -276,7 +353,7 @@ fn judge(run: &Run, src: &[u8], now: i64, c: &Case) -> CaseResult {
             .filter_map(|i| i.validation_status.as_ref().map(|s| s.to_string()))
             .collect();
         let mut accepted = res.is_ok();
-        if st == "miss" && c.rule == "ca_true" {
+        if selftest_miss(&c.rule) {
             accepted = true;
         }
         if st == "falseflag" && c.rule == "conforming" {
@@ -363,7 +440,7 @@ fn judge(run: &Run, src: &[u8], now: i64, c: &Case) -> CaseResult {
         };
         let mut state = sdk::state_name(reader.validation_state()).to_string();
         let mut fails = sdk::failure_codes(&reader);
-        if st == "miss" && c.rule == "ca_true" {
+        if selftest_miss(&c.rule) {
             state = "Trusted".into();
             fails.clear();
         }
